@@ -7,7 +7,7 @@ import random
 import re
 from concurrent.futures import ProcessPoolExecutor
 
-from harness import tlc, net
+from harness import sim, tlc, net
 from harness.ev import jsonable
 
 TREE = [0, 0o1, 0o2, 0o11, 0o21, 0o111]
@@ -82,6 +82,25 @@ def scenario(args):
         jobs.append(net.job_write(name[other], s, 0, msg(5), budget_ms=8000))
         jobs.append(net.job_call(name[s], "multicast_level=", on))
         jobs.append(net.job_write(name[s], other, 65, msg(30), budget_ms=8000))
+    elif kind == "foreign-edit":
+        # a second, unrelated network object of the same program (another radio, another network) edits ITS OWN address
+        # scheme in place (the attributes are documented as mutable bytearrays); this node then re-derives its addresses
+        s, other = p
+
+        def body(ns, nm):
+            from circuitpython_nrf24l01.rf24_network import RF24Network
+            c2 = sim.Chip(sim.Air(ns.s), "foreign")
+            o2 = RF24Network(sim.FakeSpiDev(c2), 0, sim.Pin(c2), 0o3)
+            o2.address_prefix[0] ^= 0x17
+            o2.address_suffix[1] ^= 0x41
+            o2.address_suffix[5] ^= 0x41
+            o2.node_address = 0o3
+            o = ns.objs[nm]
+            o.node_address = o.node_address
+            return 0
+        jobs.append(net.job_call(name[s], "node_address=", body))
+        jobs.append(net.job_write(name[other], s, 0, msg(5), budget_ms=8000))
+        jobs.append(net.job_multicast(name[s], msg(4), 2, None))
     elif kind == "power-cycle":
         # the radio is powered down and up again through the node's own attribute, then the node only receives
         s, other = p
@@ -140,6 +159,7 @@ def build(chk):
         add("context", (s, d, 5))
     for (s, d) in [(0o11, 0o1), (0o1, 0), (0o21, 0o111), (0o2, 0o21), (0, 0o1), (0o111, 0o11)]:
         add("mc-toggle", (s, d))
+        add("foreign-edit", (s, d))
         add("power-cycle", (s, d))
     return jobs
 
